@@ -140,6 +140,18 @@ def run_v1(report, n, rng):
         graphs = {"base2": gen_graph(rng, len(base_pal), depth=2, allow_colrglyph=False)}
         graphs["base0"] = gen_graph(rng, len(base_pal))
         graphs["base1"] = gen_graph(rng, len(base_pal))
+        if i == 0:
+            # directed: the foreground colour with its own alpha (solid and gradient stop), a rotation above a glyph
+            from fontTools.ttLib.tables import otTables as ot
+
+            F = ot.PaintFormat
+            fg = lambda a: dict(Format=F.PaintSolid, PaletteIndex=0xFFFF, Alpha=a)
+            graphs["base0"] = dict(Format=F.PaintColrLayers, Layers=[
+                dict(Format=F.PaintGlyph, Glyph="sq", Paint=fg(0.5)),
+                dict(Format=F.PaintGlyph, Glyph="tri", Paint=dict(Format=F.PaintSolid, PaletteIndex=1, Alpha=0.25)),
+                dict(Format=F.PaintTransform, Transform=(0.866, 0.5, -0.5, 0.866, 40, -30), Paint=dict(Format=F.PaintGlyph, Glyph="bar", Paint=fg(0.25)))])
+            graphs["base1"] = dict(Format=F.PaintGlyph, Glyph="sq", Paint=dict(Format=F.PaintLinearGradient, x0=100, y0=100, x1=400, y1=150, x2=60, y2=380, ColorLine=dict(
+                Extend="pad", ColorStop=[dict(StopOffset=0.0, PaletteIndex=0xFFFF, Alpha=1.0), dict(StopOffset=1.0, PaletteIndex=0xFFFF, Alpha=0.25)])))
         asc, desc = rng.choice([(800, -200), (950, -250), (1000, 0)])
         try:
             font = build_font(graphs, palettes, asc=asc, desc=desc)
